@@ -107,8 +107,12 @@ let cfg t : string =
   let app evs = s := fst (feed step !s evs) in
   let settle_now () = s := fst (settle step !s) in
   let pend () = match !s.ph with Locking -> "L" | Unlocking -> "U" | Crashed -> "X" | _ -> "-" in
+  (* the evaluator's reply to every request (event a <mode>): Response events, no effect on the state *)
+  let ans = ref (-2) in
   let evals acts =
-    let gs = List.filter_map (fun a -> match a with Eval (g, _) -> Some (ZA.to_int (zt_of_pos g)) | _ -> None) acts in
+    let ps = List.filter_map (fun a -> match a with Eval (g, _) -> Some g | _ -> None) acts in
+    if !ans >= -1 then List.iter (fun g -> app [Response (g, zs (string_of_int !ans))]) ps;
+    let gs = List.map (fun g -> ZA.to_int (zt_of_pos g)) ps in
     String.concat "," (List.map string_of_int (List.sort compare gs)) in
   settle_now ();
   let nev = next_int t in
@@ -126,6 +130,11 @@ let cfg t : string =
             let (s', acts) = step !s (Tick now) in
             s := s';
             (if bad then "!" else "") ^ "K:" ^ evals acts
+        | "a" ->
+            ans := (match next t with
+                    | "none" -> -2 | "nil" -> -1 | "nf" -> 0 | "ok" -> 1 | "warn" -> 2 | "err" -> 3 | "stop" -> 4
+                    | "stall" -> 5 | "rewind" -> 6 | m -> failwith ("drv_evalloop: unknown answer mode " ^ m));
+            "A"
         | "e" ->
             settle_now ();
             if !s.ph = Unlocking then (app [UnlockOk]; settle_now ());
